@@ -18,6 +18,7 @@ import importlib
 import json
 import multiprocessing
 import os
+import re
 import pickle
 import shutil
 import sys
@@ -317,6 +318,34 @@ def write_evidence(mod, prop, tier, seed, acc, wall, nviol, known_hits,
     os.replace(tmp, path)
 
 
+TIME_BASED = re.compile(r'(^|/)(hang|apply-hangs|no-answer|component-slow)')
+
+
+def confirm_time_based(mod, prop, tier, seed, acc):
+    """A bucket that rests on a CPU-time limit and was hit once or twice is replayed in a
+    fresh accumulator before it is reported: a hang (endless loop, exponential blow-up)
+    is a property of the input and shows again; a one-off on an oversubscribed machine does
+    not and is recorded as inconclusive.  Buckets hit three times or more are reported as is."""
+    for key in [k for k in acc.violations if TIME_BASED.search(k)]:
+        v = acc.violations[key]
+        if v['count'] >= 3:
+            continue
+        a2 = Acc()
+        ctx = Ctx(prop, tier, seed, 0, 1, os.path.join(WORK, f'{prop}-confirm-{os.getpid()}'))
+        os.makedirs(ctx.workdir, exist_ok=True)
+        try:
+            mod.replay(v['case'], a2, ctx)
+        except BaseException:  # noqa  (cannot decide: keep the alarm)
+            continue
+        finally:
+            shutil.rmtree(ctx.workdir, ignore_errors=True)
+        if not any(TIME_BASED.search(k2) for k2 in a2.violations):
+            acc.inconclusive.append(dict(why='time-based alarm not confirmed by a replay', key=key, detail=v['detail'][:300],
+                                         case=v['case']))
+            acc.skip('time-based alarm not confirmed by a replay: ' + key)
+            del acc.violations[key]
+
+
 def report(prop, acc, seed, tier):
     """Print KNOWN-FINDING / VIOLATION lines; returns (#unlisted, known hits)."""
     known = known_for(prop)
@@ -395,6 +424,7 @@ def main(argv):
             return 2
         if hasattr(mod, 'finish'):
             mod.finish(acc, tier)
+        confirm_time_based(mod, prop, tier, seed, acc)
         nviol, hits = report(prop, acc, seed, tier)
         write_evidence(mod, prop, tier, seed, acc,
                        time.time() - t0, nviol, hits, errors)
